@@ -21,12 +21,19 @@ META = {
     "id": "C14",
     "level": "proof",
     "technique": "Coq proof of Robinson unification (sound, most general, complete, fuel sufficient, idempotent) "
-                 "+ differential tie of =/2, \\=/2, clause-head calls and returned bindings against the extracted mgu",
+                 "+ differential tie of =/2, \\=/2, clause-head calls and returned bindings against the extracted mgu "
+                 "+ fail-closed Python-ast translation of engine_unify.unify_value / unify_call_head into Gallina (GenUnify.v), "
+                 "proved to compute an mgu whenever its final bindings dictionary is in solved form (decidable guard; "
+                 "a-priori class: one side ground), tied by direct calls of the real functions",
     "design_ref": "DESIGN.md §5 C14",
     "text": "mgu with occurs check is defined in Gallina and proved sound, most general, complete and idempotent for all terms; "
             "the engine's =/2, \\=/2, clause-head unification and binding return are compared with the extracted mgu on "
-            "bounded-exhaustive and random term pairs (success/failure and answer instance up to variable renaming).",
-    "note": "Trusted: Coq kernel, extraction + OCaml driver (term (de)serialisation), Python glue that renders terms as "
+            "bounded-exhaustive and random term pairs (success/failure and answer instance up to variable renaming). "
+            "The code of unify_value itself is translated on every run and proved: raises only without a unifier; final dictionary "
+            "has exactly the unifiers as solutions; solved dictionary => its resolution is an mgu equivalent to the reference; "
+            "the translated unify_value and unify_call_head are compared with direct calls (value, dictionary, context, exception).",
+    "note": "Trusted: translator gen/c14_unify.py and ModelImplUnify.v (meaning of the Python primitives), "
+            "Coq kernel, extraction + OCaml driver (term (de)serialisation), Python glue that renders terms as "
             "ProbLog text, reads answers back and renames variables canonically.",
 }
 
@@ -704,7 +711,7 @@ def optional_build(ctx, rel):
 
 
 IMPL_EXTRACT_V = """From Coq Require Import NArith ZArith List Extraction ExtrOcamlBasic.
-Require Import PL.C14.ModelUnify PL.C14.ModelImplUnify PL.C14.GenUnify.
+Require Import PL.C14.GenUnify PL.C14.ModelImplUnify PL.C14.ModelUnify .
 Extraction Language OCaml.
 Set Extraction Output Directory ".".
 Extraction "oracle.ml" unify_value unify_call_head solved sv_visible resolve.
@@ -880,6 +887,28 @@ def py_term(t, vmap, head=False):
     return Term(t[1], *[py_term(a, vmap, head) for a in t[2]])
 
 
+def int_const_hits_var(vals):
+    """Some integer Constant in the values has the number of an engine variable of the same call.  Python's
+    Constant.__eq__ compares str(): `-2 == Constant(-2)` is True, so unify_value's `if value2 != value` skips the binding.
+    The translated model keeps variables and constants apart (documented domain restriction of ModelImplUnify.v)."""
+    from problog.logic import Constant
+    ints, consts = set(), set()
+
+    def go(v):
+        if v is None:
+            return
+        if type(v) == int:
+            ints.add(v)
+        else:
+            if isinstance(v, Constant) and type(v.functor) == int:
+                consts.add(v.functor)
+            for a in v.args:
+                go(a)
+    for v in vals:
+        go(v)
+    return bool(ints & consts)
+
+
 def has_anon(t):
     return t[0] == '_' or (t[0] == 'c' and any(has_anon(a) for a in t[2]))
 
@@ -926,7 +955,7 @@ def judge_direct(ctx, enc, exe, iexe, pairs, proved=True):
         enc.enc(strip_quote(s2), vm, out)
         enc.enc(strip_quote(t2), vm, out)
         enc.enc(strip_quote(s2), vm, out)
-        cases.append(('uv', s, t, got, ob[0]))
+        cases.append(('uv', s, t, got, ob[0], int_const_hits_var([ps, pt])))
         reqs.append(req)
         ref_reqs.append(" ".join(out))
         out = ["inst"]
@@ -945,6 +974,7 @@ def judge_direct(ctx, enc, exe, iexe, pairs, proved=True):
             ph = [py_term(a, vmh, head=True) for a in hargs]
             tc = [None] * len(vmh)
             req = "head %s %s %s" % (ienc.list_text(pc), ienc.list_text(ph), ienc.list_text(tc))
+            hit = int_const_hits_var(pc + ph)
             ob = call_direct(unify_call_head, pc, ph, tc)
             if ob[0] == 'R':
                 # the function's own dictionary is local: the model returns it, Python does not
@@ -956,7 +986,7 @@ def judge_direct(ctx, enc, exe, iexe, pairs, proved=True):
             out = ["call"]
             enc.enc(strip_quote(C('ans', *[named_anon(a, [0]) if False else a for a in cargs])), {}, out)
             enc.enc(strip_quote(C('ans', *hargs)), {}, out)
-            cases.append(('head', C('ans', *cargs), C('ans', *hargs), got, ob[0]))
+            cases.append(('head', C('ans', *cargs), C('ans', *hargs), got, ob[0], hit))
             reqs.append(req)
             ref_reqs.append(" ".join(out))
             sig_reqs.append(" ".join(out))
@@ -967,7 +997,7 @@ def judge_direct(ctx, enc, exe, iexe, pairs, proved=True):
 
     def norm(x):
         return " ".join(x.split())
-    for (kind, s, t, got, tag), m, r, rq, r2 in zip(cases, model, ref, reqs, sigref):
+    for (kind, s, t, got, tag, hit), m, r, rq, r2 in zip(cases, model, ref, reqs, sigref):
         key = ("direct-" + kind, canon(C('x', strip_quote(s), strip_quote(t))))
         nontrivial = (s[0] == 'c' or t[0] == 'c') and bool(tvars(C('x', s, t)))
         ctx.case(key, nontrivial, sample={"mode": "direct-" + kind, "s": text(s), "t": text(t), "python": got, "model": m})
@@ -992,6 +1022,8 @@ def judge_direct(ctx, enc, exe, iexe, pairs, proved=True):
                 klass = classify(mode, s, t, True if mode == 'neq' else None, ('ok', [] if mode == 'neq' else [('x',)]))
             else:
                 klass = None
+            if klass is None and hit:
+                klass = "int-constant-equals-variable-number"
             ctx.count("direct_disagree_" + str(klass))
             seen = ctx.__dict__.setdefault("_c14_reported", {})
             seen[("direct", klass)] = seen.get(("direct", klass), 0) + 1
@@ -1012,6 +1044,12 @@ def judge_direct(ctx, enc, exe, iexe, pairs, proved=True):
             fields = [norm(x) for x in mm.split(";")]
             cmp_model = " ; ".join(fields[:3]) if fields[0] == 'R' else mm
             cmp_py = " ; ".join(norm(x) for x in got.split(";"))
+        if cmp_model != cmp_py and hit:
+            # outside the model's domain: an integer constant equal to a variable's number (see int_const_hits_var)
+            ctx.count("direct_model_mismatch_int_constant_equals_variable_number")
+            continue
+        if hit:
+            ctx.count("direct_int_constant_equals_variable_number_cases")
         if cmp_model != cmp_py:
             ctx.count("direct_model_mismatch")
             if sum(1 for b in ctx.broken if b.startswith("correspondence:direct")) < 5:
@@ -1022,7 +1060,7 @@ def judge_direct(ctx, enc, exe, iexe, pairs, proved=True):
         if kind == 'uv' and fields[0] == 'R':
             solved = fields[3] == '1'
             ctx.count("direct_uv_dictionary_" + ("solved" if solved else "NOT_solved"))
-            if has_anon(s) or has_anon(t) or not proved:
+            if has_anon(s) or has_anon(t) or not proved or hit:
                 continue        # anonymous variables: outside the theorems' domain (nonone); theorems not proved for this source
             unif2 = r2 != 'N'         # unifiable when constants are identified the way `signature` identifies them
             if solved and not unif2:
@@ -1233,8 +1271,14 @@ def run(ctx):
                        "plus sampled pairs of size<=3 over a larger leaf set (quoted atoms, negative/multi-digit ints, floats, strings, [], _), each through =, \\=, fact call, "
                        "argument-spread fact call and body-= with returned bindings; (2) random pairs of depth<=4 with up to 6 "
                        "shared variables, half of them mutations of one another so that about half are unifiable. "
+                       "Every pair additionally goes DIRECTLY into engine_unify.unify_value(s, t, {}) and unify_call_head([s],[t'],ctx) "
+                       "(and argument-spread) and into the translated Gallina functions: returned value, final dictionary / context and "
+                       "exception class must be identical; the direct results are also judged against mgu / call_fact. "
                        "A case is non-trivial when a side is compound and a variable occurs; distinct = (door, pair up to renaming)")
     ctx.assumptions += [
+        "translated model: engine variables are ints (negative = calling context, >= 0 = clause-head slots), None = anonymous/unbound; "
+        "a functor is identified by what Term.signature keeps of it; RecursionError = recursion depth exhausted (model fuel 400, Python limit 1500); "
+        "theorems about unify_value hold for values without None inside (nonone)",
         "the Python glue renders model terms as ProbLog text and reads engine answers back faithfully",
         "atoms are identified after removing quotes ('a' is a), numbers by value, int 1 and float 1.0 and atom '1' are different constants (ISO)",
         "an engine error is acceptable only as OccursCheck (a GroundingError, hence a ProbLogError) on a pair that has no unifier; "
@@ -1313,6 +1357,17 @@ def run(ctx):
         seeds = [(tup(a), tup(b)) for a, b in json.load(f)["pairs"]]
     judge(ctx, enc, exe, make_cases(seeds, modes))
     judge_direct(ctx, enc, exe, iexe, seeds, impl_proved)
+    # recorded probe (not judged here, see notes/C14.md "int-constant-equals-variable-number"): t(X,X,Z) = t(-2,Z,a)
+    try:
+        from problog.engine_unify import unify_value as _uv
+        from problog.logic import Term as _T, Constant as _C
+        _d = {}
+        _r = call_direct(_uv, _T('t', -1, -1, -2), _T('t', _C(-2), -2, _T('a')), _d)
+        ctx.cov["probe_int_constant_equals_variable_number"] = {
+            "call": "unify_value(t(V-1,V-1,V-2), t(-2,V-2,a), {})  [no unifier: V-1 = -2, V-2 = V-1, V-2 = a]",
+            "observed": str(_r), "dictionary": str(_d)}
+    except Exception as e:  # noqa
+        ctx.cov["probe_int_constant_equals_variable_number"] = {"error": str(e)[:200]}
     # (1) bounded exhaustive
     if ctx.tier == "thorough":
         ts = terms_by_size(LEAVES_SMALL, 4)       # 312 terms -> 97 344 ordered pairs, a fixed-seed half of them
